@@ -1,16 +1,22 @@
 """C50 FilesystemLock mutual exclusion — exhaustive interleavings of the REAL lock()/unlock().
 
-1–3 simulated processes (one Python thread each, exactly one runnable at a time) run small programs
-around the real `FilesystemLock.lock/unlock`.  The lock module's own filesystem primitives
-(`lockfile.symlink/readlink/rmlink/kill`, and `os.getpid` through a proxy bound to `lockfile.os`)
-are replaced by a scheduler-gated in-memory link table with POSIX error semantics (EEXIST, ENOENT,
-ESRCH) and per-thread pids.  Every primitive call is a scheduling point: the thread parks *before*
-the call, the explorer picks which parked process executes its pending call next; the call and the
-process-local code up to the next primitive run atomically (that is exactly the granularity at
-which separate processes can interleave).  All schedules are enumerated by a stateless DFS with
-replay; a state = link table + live pids + holders + every process's local state (its Python frames
-from the program down to the primitive: code name, line, simple locals, FilesystemLock attributes)
-and is used for pruning only.
+1–3 (thorough: 4) simulated processes run small programs around the real
+`FilesystemLock.lock/unlock`.  The lock module's own filesystem primitives
+(`lockfile.symlink/readlink/rmlink/kill`, `os.getpid` through a proxy bound to `lockfile.os`, and — if
+the module serialises stale-lock breaking with `fcntl.flock` on a sidecar file `<lock>.*` — that flock
+as a fifth, blocking primitive released at `os.close`) are replaced by a scheduler-gated in-memory
+link table with POSIX error semantics (EEXIST, ENOENT, ESRCH) and per-process pids.  Every primitive
+call is a scheduling point: the process parks *before* the call, the explorer picks which parked
+process executes its pending call next; the call and the process-local code up to the next
+primitive run atomically (exactly the granularity at which separate processes can interleave).
+
+Processes are re-execution coroutines, not threads: a process is the deterministic function "results
+of my first k primitive calls -> my next call", so advancing it re-runs its program from the start
+with the recorded results and unwinds it at the next call with a BaseException (lock()/unlock() only
+catch OSError).  The world is plain data; all schedules are enumerated by DFS, branching on clones,
+pruning on the full state = link table + flock owner + live pids + holders + every process's local
+state (its Python frames from the program down to the primitive: code name, line, simple locals,
+FilesystemLock attributes — read for pruning only, never asserted on).
 
 Programs: once (`if lock(): unlock()`), retry (2 attempts), twice (two cycles), die (acquire, then
 the process dies holding the lock — a stale lock arises dynamically), rogue (calls `unlock()` without
@@ -20,31 +26,45 @@ a dead pid / lock held by a live non-participant.
 Oracle: (1) the number of live processes between a True return of `lock()` and the completion of
 their `unlock()` is <= 1 at every point; (2) `unlock()` by a holder does not raise; (3) while a live
 non-participant holds the lock nobody acquires; (4) one process alone: acquires a free lock with
-clean == True, a stale one with clean == False in a single call, never a live foreign one; (5) with
-no live foreign holder somebody acquires in every complete schedule; (6) `lock()` never raises for
-the three errnos the table can produce.
+clean == True, a stale one with clean == False in a single call, re-acquires after its own release,
+never acquires a live foreign one; (5) with no live foreign holder somebody acquires in every
+complete schedule, and no schedule ends with all remaining processes blocked; (6) `lock()` never
+raises for the three errnos the table can produce.  Guard: a process's hold ends when its unlock's
+`rmlink` executes (the return of `unlock()` is process-local), a dead process holds nothing.
 
-Known finding (DESIGN 6-26) `stale-break-removes-live-lock`: classified ONLY when the trace contains
-an `rmlink` issued from inside `lock()` (never from `unlock()`) that succeeded on a link whose value
-is a live pid Q, by a process that had read a different, dead pid and got ESRCH from `kill` — and
-Q is one of the two holders / the holder whose unlock raised, its acquisition preceding that rmlink.
-Every other exclusion failure keeps the generic keys `two-holders` / `holder-unlock-raised`.
+Known finding (DESIGN 6-26) `stale-break-removes-live-lock`: classified ONLY when, earlier in the
+same schedule, an `rmlink` issued from inside `lock()` (never from `unlock()`) succeeded on a link
+whose value is the pid of a live participant currently holding the lock, by a process whose two
+preceding primitive calls were `readlink -> D`, `kill(D) -> ESRCH` for a different, dead pid D.
+From that moment a holder has no link (or somebody else's), and later two-holders / unlock-raised
+events in that schedule are its consequences.  Every exclusion failure in a schedule without that
+event keeps the generic keys `two-holders` / `holder-unlock-raised`.
+
+Containment: the lock path lives under a mkdtemp() top and the whole run is inside an unarmed
+FaultFS guard, so a lock module that bypassed its primitives could only touch that directory
+(anything else is refused and reported as `filesystem-call-outside-scratch`).
 """
 import errno
 import os
+import shutil
 import sys
+import tempfile
+
+from vf.engines.fsfault import FaultFS, report_escapes, selftest_or_inconclusive
 
 LEVEL = "exploration"
-ENGINE = "E1-explore (local stateless DFS with replay over gated threads)"
+ENGINE = "E1-explore (local DFS over re-execution coroutines; E3 guard for containment)"
 TECHNIQUE = "runtime monitoring: at-most-one-holder invariant over every interleaving of the lock module's filesystem primitives"
-RULE = ("case = (configuration [1..3 processes, program per process from once/retry/twice/die/rogue, "
-        "initial link none/stale/live-foreign], schedule of primitive calls).  All schedules are "
-        "enumerated (DFS with replay, pruning on the full state); distinct = distinct (configuration, "
-        "state) pairs reached; non-trivial = at least two processes or a stale/foreign initial link.")
+RULE = ("case = (configuration [1..3 processes, thorough also 4; program per process from once/retry/"
+        "twice/die/rogue; initial link none/stale/live-foreign], schedule of primitive calls).  ALL "
+        "schedules of every configuration are enumerated (DFS, pruning on the full state); every "
+        "state is checked and counted in `states`; distinct = (configuration, state) pairs, recorded "
+        "for the first 4000 states of each configuration; quick omits the five 3-process "
+        "configurations with two or more `twice` programs.")
 ASSUMPTIONS = [
     "trusted base: the in-memory link table implements symlink/readlink/remove/kill(pid,0) with POSIX atomicity and errnos",
     "processes interleave only at the lock module's filesystem primitives (symlink, readlink, rmlink, kill); pids are not reused",
-    "bounded: <= 3 processes, <= 2 lock cycles per process; liveness is only checked as 'somebody acquires in every complete schedule' and 'a lone process acquires a stale lock in one call'",
+    "bounded: <= 3 processes (4 in the thorough tier), <= 2 lock cycles per process; liveness is only checked as 'somebody acquires in every complete schedule' and 'a lone process acquires a stale lock in one call'",
 ]
 SHARDS = {"quick": 4, "thorough": 16}
 FLOORS = {"states": 2000, "schedules_completed": 200, "acquisitions": 1000, "holder_unlocks": 500, "stale_breaks": 100,
@@ -53,8 +73,9 @@ READY = True
 
 PIDS = (101, 102, 103, 104)
 DEAD, FOREIGN = 999, 500
-NAME = "/vf/lock"
+NAME = None  # <scratch>/lock, set by Seams(); the link table is in memory, nothing is ever created there
 MAX_STEPS = 120
+DISTINCT_CAP = 4000  # (configuration, state) pairs recorded as distinct cases per configuration
 
 
 class _Suspend(BaseException):
@@ -91,28 +112,75 @@ def _kill(pid, sig):
     return _CUR[0].seam("kill", (pid, sig))
 
 
+_INTERN = {}  # local-state signature -> small int (exact; keeps the `seen` sets small)
+FAKE_FD = 1000000  # descriptors of the breaker sidecar file handed to the simulated processes
+
+
 class _OsProxy:
+    """`os` for the lock module: per-process getpid(); open/close of a sidecar file next to the lock
+    (used by a flock-serialised stale-lock breaker) are process-local and hand out fake descriptors."""
+
     def __getattr__(self, n):
         return getattr(os, n)
 
     def getpid(self):
         return PIDS[_CUR[1]]
 
+    def open(self, path, flags, mode=0o777, **kw):
+        if isinstance(path, str) and path.startswith(NAME + "."):
+            return FAKE_FD + _CUR[1]
+        return os.open(path, flags, mode, **kw)
+
+    def close(self, fd):
+        if isinstance(fd, int) and fd >= FAKE_FD:
+            return _CUR[0].fd_closed(fd - FAKE_FD)
+        return os.close(fd)
+
+
+class _FcntlProxy:
+    """`fcntl` for the lock module: flock() on a fake descriptor is a fifth scheduled primitive with
+    blocking semantics (a process waiting for the flock is not runnable)."""
+
+    def __init__(self, real):
+        self._real = real
+
+    def __getattr__(self, n):
+        return getattr(self._real, n)
+
+    def flock(self, fd, op):
+        if isinstance(fd, int) and fd >= FAKE_FD:
+            return _CUR[0].seam("flock", ("un" if op & self._real.LOCK_UN else "ex",))
+        return self._real.flock(fd, op)
+
 
 class Seams:
+    """Installs the seams; the lock path lives under a mkdtemp() top guarded by an unarmed FaultFS, so
+    that a broken lock module that bypassed the seams could still only touch the scratch directory."""
+
     def __enter__(self):
+        global NAME
         from twisted.python import lockfile
 
         self.lockfile = lockfile
+        self.root = os.path.realpath(tempfile.mkdtemp(prefix="vf_c50_"))
+        NAME = os.path.join(self.root, "lock")
+        self.guard = FaultFS(self.root)
+        self.guard.__enter__()
         self.saved = {n: getattr(lockfile, n) for n in ("symlink", "readlink", "rmlink", "kill", "os")}
         lockfile.symlink, lockfile.readlink, lockfile.rmlink, lockfile.kill = _symlink, _readlink, _rmlink, _kill
         lockfile.os = _OsProxy()
+        if hasattr(lockfile, "fcntl"):
+            self.saved["fcntl"] = lockfile.fcntl
+            lockfile.fcntl = _FcntlProxy(lockfile.fcntl)
         return self
 
     def __exit__(self, *exc):
         for n, v in self.saved.items():
             setattr(self.lockfile, n, v)
         _CUR[0] = _CUR[1] = None
+        self.guard.__exit__(None, None, None)
+        self.leftovers = os.listdir(self.root)
+        shutil.rmtree(self.root, ignore_errors=True)
         return False
 
 
@@ -147,6 +215,7 @@ class World:
             self.table[NAME] = str(FOREIGN)
             self.alive.add(FOREIGN)
         self.holders = set()
+        self.flock = None          # process holding the breaker flock
         self.victims = {}          # proc -> trace index: live holders whose link a stale-breaker removed
         self.acquired_ever = [False] * n
         self.api = [None] * n      # "lock" / "unlock": which public call the process is inside
@@ -165,6 +234,7 @@ class World:
         w.table = dict(self.table)
         w.alive = set(self.alive)
         w.holders = set(self.holders)
+        w.flock = self.flock
         w.victims = dict(self.victims)
         w.acquired_ever = list(self.acquired_ever)
         w.api = list(self.api)
@@ -183,6 +253,7 @@ class World:
         _CUR[0], _CUR[1] = self, i
         self.cursor = 0
         self.budget = budget
+        self.suspending = False
         self.live = not self.results[i] and budget == 0  # the very first run: everything is new
         self.api[i] = None
         try:
@@ -218,9 +289,16 @@ class World:
             rec.append(("ok", val))
             return val
         self.pending[i] = (op, args)    # the next call: park here
-        self.local[i] = self._frames()
+        sig = self._frames()
+        self.local[i] = _INTERN.setdefault(sig, len(_INTERN))  # exact, compact stand-in for the signature
         self.status[i] = "parked"
+        self.suspending = True      # the `finally: os.close(fd)` of the unwinding is not a real close
         raise _Suspend()
+
+    def fd_closed(self, i):
+        if self.live and not self.suspending and self.flock == i:
+            self.flock = None
+            self.trace.append({"step": len(self.trace), "proc": i, "pid": PIDS[i], "event": "flock-released-by-close"})
 
     def _frames(self):
         sig = []
@@ -234,7 +312,7 @@ class World:
 
     def _exec(self, i, op, args):
         before = self.table.get(NAME)
-        rec = {"step": len(self.trace), "proc": i, "pid": PIDS[i], "api": self.api[i], "op": op, "args": list(args), "link_before": before}
+        rec = {"step": len(self.trace), "proc": i, "pid": PIDS[i], "api": self.api[i], "op": op, "args": ["<lock>" if a == NAME else a for a in args], "link_before": before}
         self.trace.append(rec)
         err = None
         res = None
@@ -260,6 +338,15 @@ class World:
         elif op == "die":
             self.alive.discard(PIDS[i])
             self.holders.discard(i)
+            if self.flock == i:
+                self.flock = None
+        elif op == "flock":
+            if args[0] == "un":
+                if self.flock == i:
+                    self.flock = None
+            else:
+                assert self.flock in (None, i), "scheduler ran a process blocked on the flock"
+                self.flock = i
         rec["result"] = errno.errorcode[err] if err else res
         if err:
             raise OSError(err, os.strerror(err))
@@ -316,7 +403,8 @@ class World:
 
     # ---- scheduler side --------------------------------------------------------------------------------
     def runnable(self):
-        return [i for i in range(self.n) if self.status[i] == "parked"]
+        return [i for i in range(self.n) if self.status[i] == "parked"
+                and not (self.pending[i] == ("flock", ("ex",)) and self.flock not in (None, i))]
 
     def step(self, i):
         assert self.status[i] == "parked", (i, self.status)
@@ -325,7 +413,7 @@ class World:
         self._run(i, 1)
 
     def state(self):
-        return (self.table.get(NAME), tuple(sorted(self.alive)), tuple(sorted(self.holders)), tuple(self.local),
+        return (self.table.get(NAME), self.flock, tuple(sorted(self.alive)), tuple(sorted(self.holders)), tuple(self.local),
                 tuple(self.acquired_ever), tuple(sorted(self.victims)))
 
     # ---- known-finding classifier ----------------------------------------------------------------------
@@ -434,9 +522,12 @@ def report(ctx, w, mark):
 
 def final_checks(ctx, w):
     """A complete schedule (every process finished)."""
-    ctx.count("schedules_completed")
     cfg = w.cfg
     wit = {"config": cfg, "schedule": list(w.schedule), "trace": w.trace[-60:]}
+    if any(st != "done" for st in w.status):
+        ctx.violation("all-remaining-processes-blocked", "no process can make progress (blocked on the breaker flock)", wit)
+        return
+    ctx.count("schedules_completed")
     if cfg["initial"] != "foreign" and not any(w.acquired_ever):
         ctx.violation("nobody-acquired", "no process ever acquired a lock that was free or stale", wit)
     if w.n == 1:
@@ -482,7 +573,8 @@ def explore(ctx, cfg, cfg_id, shard_depth=None):
             ctx.count("states")
             ctx.evaluated()
             ctx.count("exclusion_checks")
-            ctx.distinct((cfg_id, s))
+            if nstates <= DISTINCT_CAP:  # evidence bookkeeping only; every state is explored and counted
+                ctx.distinct((cfg_id, s))
             acts = w.runnable()
             if not acts:
                 final_checks(ctx, w)
@@ -514,7 +606,10 @@ def configs(tier):
         for a in range(len(progs)):
             for b in range(a, len(progs)):
                 for c in range(b, len(progs)):
-                    out.append({"programs": [progs[a], progs[b], progs[c]], "initial": initial})
+                    p3 = [progs[a], progs[b], progs[c]]
+                    if tier == "quick" and p3.count("twice") >= 2:
+                        continue  # the five largest state spaces (40% of all states): thorough tier only
+                    out.append({"programs": p3, "initial": initial})
         if tier != "quick":
             small = ["once", "die", "rogue", "retry"]
             for a in range(len(small)):
@@ -527,10 +622,12 @@ def configs(tier):
 
 def run(ctx):
     cfgs = configs(ctx.tier)
+    if not selftest_or_inconclusive(ctx):
+        return
     ctx.exhaustive = True
     # biggest configurations first so that shards finish together
     order = sorted(range(len(cfgs)), key=lambda c: (-len(cfgs[c]["programs"]), c))
-    with Seams():
+    with Seams() as seams:
         for rank, cid in enumerate(order):
             cfg = cfgs[cid]
             if not ctx.owns(rank):
@@ -543,6 +640,9 @@ def run(ctx):
             ctx.maxi("states_per_config", n)
             if rank < 3 * ctx.nshards:
                 ctx.sample({"config": cfg, "states": n})
+    report_escapes(ctx)
+    if seams.leftovers:
+        ctx.violation("real-filesystem-touched", "the lock module bypassed its own primitives and created real files", {"files": seams.leftovers})
 
 
 def replay(ctx, w):
